@@ -4,7 +4,7 @@ import "strings"
 
 func init() {
 	register("C04",
-		"Decides 'skipping a value consumes exactly the bytes decoding it would' at the level of wire-token languages, for all 27 codec types at once: the automaton extracted from Skip accepts exactly the token sequences the automaton of Read accepts (WA-RS), size-prefixed blocks are handled as the specification lays them out (WA-NEG), Skip accepts every framing of the specification including the byte-size fast path (WA-SPEC-S), New/Omit consume nothing (WA-NEWPURE), and the record reader skips exactly the fields the builder marked absent, with the very sentinel it tests, decoding all others at their own offset (BT-SENTINEL).  A record field is bound to the offset and type of the struct field of that name in the target type itself, so adding or permuting target fields cannot move another field's store (BT-REC, SG-NAMES). "+
+		"Decides 'skipping a value consumes exactly the bytes decoding it would' at the level of wire-token languages, for all 27 codec types at once: the automaton extracted from Skip accepts exactly the token sequences the automaton of Read accepts (WA-RS), size-prefixed blocks are handled as the specification lays them out (WA-NEG), Skip accepts every framing of the specification including the byte-size fast path (WA-SPEC-S), New/Omit consume nothing (WA-NEWPURE), and the record reader skips exactly the fields the builder marked absent, with the very sentinel it tests, decoding all others at their own offset (BT-SENTINEL).  A record field is bound to the offset and type of the struct field of that name in the target type itself, so adding or permuting target fields cannot move another field's store (BT-REC, SG-NAMES).  Fields of the target that the file does not carry keep the zero value of a freshly cleared slot (AL-CLR, AL-CLOSE, AL-BUMP). "+
 			"Not decided: that projected and full decodes agree on values; feasibility of individual paths (the comparison is between regular languages of tokens).",
 		func(c *Ctx) {
 			ruleWARS(c)
@@ -16,6 +16,7 @@ func init() {
 			ruleBTPure(c)
 			ruleBTRec(c)
 			ruleSGNames(c)
+			ruleALBump(c)
 		})
 
 	register("C03",
@@ -36,7 +37,7 @@ func init() {
 		})
 
 	register("C13",
-		"Decides necessary conditions of C13 for caller-supplied schemas: a nullable union writes exactly one selector, the null branch's index 1-nonNull when the value is omitted and nonNull otherwise, and exactly then the value (WA-SEL), with nonNull derived from the schema for either null position (BT-NONNULL); what the union codecs write is accepted by their own Read and is a specification encoding (WA-WR, WA-SPEC-W); configuration that drives Read drives Write (E-FU); &x handed between codecs has the callee's width (PC-ARG); the full schema-type x Go-kind table is width-exact (BT-WIDTH); logical-type multipliers and units agree (TS-MULT, TS-UNIT).  Omit is true only on a zero test of the value at its pointer, so a non-zero value (a pointer to zero, the epoch) is never written as null (OM-ZERO). "+
+		"Decides necessary conditions of C13 for caller-supplied schemas: a nullable union writes exactly one selector, the null branch's index 1-nonNull when the value is omitted and nonNull otherwise, and exactly then the value (WA-SEL), with nonNull derived from the schema for either null position (BT-NONNULL); what the union codecs write is accepted by their own Read and is a specification encoding (WA-WR, WA-SPEC-W); configuration that drives Read drives Write (E-FU); &x handed between codecs has the callee's width (PC-ARG); the full schema-type x Go-kind table is width-exact (BT-WIDTH); logical-type multipliers and units agree (TS-MULT, TS-UNIT).  Omit is true only on a zero test of the value at its pointer, so a non-zero value (a pointer to zero, the epoch) is never written as null (OM-ZERO).  What New allocates is what Read fills in (PC-NEW).  No product is formed in a 32-bit type and widened afterwards (TS-WIDE). "+
 			"Not decided: inversion for all values.",
 		func(c *Ctx) {
 			ruleWASel(c)
@@ -50,12 +51,14 @@ func init() {
 			ruleTSMult(c)
 			ruleTSNoDur(c)
 			ruleOMZero(c)
+			rulePCNew(c)
+			ruleTSWide(c)
 		})
 }
 
 func init() {
 	register("C15",
-		"Decides C15's structural clauses from the source of schema generation: the table Go kind -> schema type extracted by path enumeration equals the documented mapping, everything else being an error (SG-MAP); the registry is consulted first and recursion goes through one entry (SG-REG); nullable unions are [null, T] and never wrap a union (SG-NULL1, SG-NEST); record fields are the struct's fields in ascending order, one per non-excluded field, named and typed from that field (SG-ORDER, SG-NAMES); generation reads no mutable state, clock, randomness or map order (SG-DET); recursion is guarded and named records are emitted once (SG-REC, SG-ONCE); and for every generated schema type the codec builder either builds a width-exact codec or refuses (BT-WIDTH). "+
+		"Decides C15's structural clauses from the source of schema generation: the table Go kind -> schema type extracted by path enumeration equals the documented mapping, everything else being an error (SG-MAP); the registry is consulted first and recursion goes through one entry (SG-REG); nullable unions are [null, T] and never wrap a union (SG-NULL1, SG-NEST); record fields are the struct's fields in ascending order, one per non-excluded field, named and typed from that field (SG-ORDER, SG-NAMES); generation reads no mutable state, clock, randomness or map order (SG-DET); recursion is guarded and named records are emitted once (SG-REC, SG-ONCE); and for every generated schema type the codec builder either builds a width-exact codec or refuses (BT-WIDTH).  A registered schema is never modified by generation (LK-SHARED). "+
 			"Not decided: validity of names/namespaces as Avro identifiers.",
 		func(c *Ctx) {
 			ruleSGMap(c)
@@ -66,6 +69,7 @@ func init() {
 			ruleSGDet(c)
 			ruleSGRec(c)
 			ruleBTWidth(c, true)
+			ruleLKShared(c)
 		})
 }
 
@@ -91,7 +95,7 @@ func init() {
 
 func init() {
 	register("C01",
-		"Decides necessary conditions of the encode-then-read round trip, writer against reader and schema generator against codec builder: everything each codec's Write emits is accepted by its own Read (WA-WR); length prefixes and item counts are those of the data written (WA-LEN, WA-CNT); on the generated-schema path every Go kind gets a codec of exactly its width (BT-WIDTH) and Read, Write and Omit of one codec agree on what the pointer is (PC-METH); pointers are always wrapped in a union because the pointer codec writes nothing for nil (BT-PTRWRAP); schema generation and codec construction take field names and the omit flag from the same helpers (SG-NAMES); the schema in the header is the one the codec was built from (ENC-SAME); the target is cleared before each record (OD-CLEAR).  Added after seed round 5: varints are written only by the standard encoder (VAR-STD) and Omit is true only on a zero test of the value (OM-ZERO). "+
+		"Decides necessary conditions of the encode-then-read round trip, writer against reader and schema generator against codec builder: everything each codec's Write emits is accepted by its own Read (WA-WR); length prefixes and item counts are those of the data written (WA-LEN, WA-CNT); on the generated-schema path every Go kind gets a codec of exactly its width (BT-WIDTH) and Read, Write and Omit of one codec agree on what the pointer is (PC-METH); pointers are always wrapped in a union because the pointer codec writes nothing for nil (BT-PTRWRAP); schema generation and codec construction take field names and the omit flag from the same helpers (SG-NAMES); the schema in the header is the one the codec was built from (ENC-SAME); the target is cleared before each record (OD-CLEAR).  Added after seed round 5: varints are written only by the standard encoder (VAR-STD) and Omit is true only on a zero test of the value (OM-ZERO).  What is handed to the decompressor is exactly the bytes read for this block (OD-LEN, OD-FLOW). "+
 			"Not decided: equality of values for all types, values and configurations.",
 		func(c *Ctx) {
 			ruleWAWR(c, nil, 27)
@@ -107,10 +111,11 @@ func init() {
 			ruleALStr(c)
 			ruleVarStd(c)
 			ruleOMZero(c)
+			ruleODLenFlow(c, findReadFile(c.P))
 		})
 
 	register("C02",
-		"Decides necessary conditions of 'valid Avro for an independent reader' against an oracle that is not the library's own reader: the block and header layout (OD-BLOCK, OD-HDR), the snappy trailer (CRC-BE), and for every codec type that what Write emits lies in the language the Avro 1.8 specification defines for the schema types the codec is built for (WA-SPEC-W); a nullable union writes exactly one selector with the right index and exactly the selected branch (WA-SEL); counts and length prefixes are those of the data (WA-CNT, WA-LEN); the omit flag reaches the codec whose Omit the union consults (BT-OMIT) and Omit is true only for nil/invalid/empty-under-omitempty (OM-SHAPE); Read/Write/Omit agree on the pointer (PC-METH); the embedded schema is the codec's own and is balanced JSON with the right keys (ENC-SAME, JS-*); pointers are wrapped in unions (BT-PTRWRAP).  Omit is true only on a zero test of the value at its pointer (OM-ZERO). "+
+		"Decides necessary conditions of 'valid Avro for an independent reader' against an oracle that is not the library's own reader: the block and header layout (OD-BLOCK, OD-HDR), the snappy trailer (CRC-BE), and for every codec type that what Write emits lies in the language the Avro 1.8 specification defines for the schema types the codec is built for (WA-SPEC-W); a nullable union writes exactly one selector with the right index and exactly the selected branch (WA-SEL); counts and length prefixes are those of the data (WA-CNT, WA-LEN); the omit flag reaches the codec whose Omit the union consults (BT-OMIT) and Omit is true only for nil/invalid/empty-under-omitempty (OM-SHAPE); Read/Write/Omit agree on the pointer (PC-METH); the embedded schema is the codec's own and is balanced JSON with the right keys (ENC-SAME, JS-*); pointers are wrapped in unions (BT-PTRWRAP).  Omit is true only on a zero test of the value at its pointer (OM-ZERO).  An encoder is handed out only after the header has been written (ENC-HDR): a zero-record file is still a container. "+
 			"Not decided: agreement of values with an external decoder.",
 		func(c *Ctx) {
 			ruleODBlock(c)
@@ -129,6 +134,9 @@ func init() {
 			ruleCPFresh(c, s)
 			ruleBTPtrWrap(c)
 			ruleOMZero(c)
+			if enc := findEncoder(c.P); enc.ctor != nil {
+				ruleENCHdr(c, enc.ctor)
+			}
 		})
 
 	register("C17",
